@@ -9,8 +9,9 @@ CONSTANTS
   MaxVer = 2
   Scratch = FALSE
   DestKinds <- PlainOnly
+  Stall <- NoStall
   Bug = "none"
 INIT Init
 NEXT Next
-INVARIANTS TypeOK ExclusiveBuffer Isolated OwnDestinationOnly MutexProtectsCache LiteralsAreAVersion UniqueIds
+INVARIANTS TypeOK ExclusiveBuffer Isolated OwnDestinationOnly IndependentOfStalledWriters MutexProtectsCache LiteralsAreAVersion UniqueIds
 CHECK_DEADLOCK FALSE
